@@ -221,4 +221,73 @@ theorem chunksAux_length {α} (n : Nat) (hn : 0 < n) (xs cur : List α) (hc : cu
     · rename_i hlt
       exact ih (cur ++ [x]) (by simp; omega)
 
+/-! ### connection events -/
+
+theorem connStep_buffer_noNl (keep : Bool) (dec : Bytes → Str) (f : Framer) (e : ConnEv)
+    (hf : nl ∉ f.buffer) : nl ∉ (connStep keep dec f e).1.buffer := by
+  cases e with
+  | data b => exact dataReceived_buffer_noNl dec f b
+  | lost => cases keep <;> simp [connStep, hf]
+  | made => simpa [connStep] using hf
+
+/-- the code as it is (`keep = true`): connection boundaries are invisible to the framing -/
+theorem feedEvents_keep (dec : Bytes → Str) (f : Framer) (evs : List ConnEv) :
+    feedEvents true dec f evs = feedAll dec f (dataOf evs) := by
+  induction evs generalizing f with
+  | nil => rfl
+  | cons e es ih =>
+    cases e with
+    | data b => simp only [feedEvents, connStep, dataOf, feedAll, ih]
+    | lost => simp [feedEvents, connStep, dataOf, ih]
+    | made => simp [feedEvents, connStep, dataOf, ih]
+
+theorem sessions_ne_nil (evs : List ConnEv) : sessions evs ≠ [] := by
+  induction evs with
+  | nil => simp [sessions]
+  | cons e es ih =>
+    cases e with
+    | data b =>
+      cases h : sessions es with
+      | nil => exact absurd h ih
+      | cons s ss => simp [sessions, h]
+    | lost => simp [sessions]
+    | made => simpa [sessions] using ih
+
+/-- the other policy (`keep = false`): the lines are the complete segments of each
+    connection's own stream, and the buffer is the tail of the last one -/
+theorem feedEvents_drop (dec : Bytes → Str) (f : Framer) (evs : List ConnEv) (hf : nl ∉ f.buffer) :
+    (feedEvents false dec f evs).2 = sessLines dec f.buffer (sessions evs) := by
+  induction evs generalizing f with
+  | nil => simp [feedEvents, sessions, sessLines, segments_noNl _ hf]
+  | cons e es ih =>
+    cases e with
+    | data b =>
+      have hb := dataReceived_buffer_noNl dec f b
+      have h := ih (dataReceived dec f b).1 hb
+      cases hs : sessions es with
+      | nil => exact absurd hs (sessions_ne_nil es)
+      | cons s ss =>
+        simp only [feedEvents, connStep, sessions, hs, sessLines, h]
+        rw [dataReceived_eq]
+        simp only
+        rw [← List.append_assoc f.buffer b s, segments_append (f.buffer ++ b) s]
+        simp
+    | lost =>
+      have h := ih ({} : Framer) (by simp)
+      simp only [feedEvents, connStep, sessions, sessLines, List.append_nil, segments_noNl _ hf] at h ⊢
+      simpa using h
+    | made =>
+      simpa [feedEvents, connStep, sessions] using ih f hf
+
+theorem sessLines_complete (dec : Bytes → Str) (buf : Bytes) (ss : List Bytes) :
+    ∀ l ∈ sessLines dec buf ss, ∃ p, nl ∉ p ∧ l = dec p := by
+  induction ss generalizing buf with
+  | nil => simp [sessLines]
+  | cons s ss ih =>
+    intro l hl
+    simp only [sessLines, List.mem_append, List.mem_map] at hl
+    rcases hl with ⟨p, hp, rfl⟩ | hl
+    · exact ⟨p, segments_fst_noNl _ p hp, rfl⟩
+    · exact ih [] l hl
+
 end MySensors
